@@ -34,10 +34,10 @@ func (r *rng) intn(n int) int {
 	return int(r.next() % uint64(n))
 }
 
-func (r *rng) bool() bool          { return r.next()&1 == 1 }
-func (r *rng) chance(p int) bool   { return r.intn(100) < p } // p percent
+func (r *rng) bool() bool             { return r.next()&1 == 1 }
+func (r *rng) chance(p int) bool      { return r.intn(100) < p } // p percent
 func (r *rng) pick(l []string) string { return l[r.intn(len(l))] }
-func (r *rng) fork() *rng          { return &rng{r.next()} }
+func (r *rng) fork() *rng             { return &rng{r.next()} }
 
 // ---------------------------------------------------------------- Coq rendering
 
